@@ -21,19 +21,19 @@ Proof. vm_compute. repeat constructor. Qed.
 Print Assumptions C18_shipped_nonempty.
 
 (* an unsupported combination (rescue with a score that cannot rescue) is refused with the tool's own error *)
-Theorem C18_unsupported_refused : forall me o st l ka thr pis rows1 infos1 st1 s0,
+Theorem C18_unsupported_refused : forall me o st l ka thr pc pis rows1 infos1 st1 s0,
   group_proteins (m_grouping me) l = Ok s0 ->
   is_rescued (m_grouping me) = true -> can_rescue (m_score me) = false ->
   one_pass me o {| ps_seen := ps_seen st; ps_counts := if m_razor me then Some l else ps_counts st;
                    ps_pep_cutoff := ps_pep_cutoff st; ps_rescue_cutoff := ps_rescue_cutoff st;
-                   ps_obsolete := ps_obsolete st |} s0 l false ka (nth 0 pis []) (nth 1 pis []) = (st1, Ok (infos1, rows1)) ->
-  snd (run me o st l ka thr pis) = Raise NotImplemented.
+                   ps_obsolete := ps_obsolete st |} s0 l false ka pc (nth 0 pis []) (nth 1 pis []) = (st1, Ok (infos1, rows1)) ->
+  snd (run me o st l ka thr pc pis) = Raise NotImplemented.
 Proof. exact rescue_needs_pep_score. Qed.
 Print Assumptions C18_unsupported_refused.
 
 (* every table a method writes consists of rows built from a competition ranking with q-values from the
    decoy-based estimate: the ranking, q-value and row-consistency guarantees (C01, C02, C06) apply to it *)
-Theorem C18_rows_come_from_a_ranking : forall me o st l ka thr pis rows,
-  snd (run me o st l ka thr pis) = Ok rows -> rows_of_ranking me ka rows.
+Theorem C18_rows_come_from_a_ranking : forall me o st l ka thr pc pis rows,
+  snd (run me o st l ka thr pc pis) = Ok rows -> rows_of_ranking me ka rows.
 Proof. exact run_rows. Qed.
 Print Assumptions C18_rows_come_from_a_ranking.
